@@ -12,6 +12,7 @@ RULE = ("NetSpecs with queue capacities from {0,1,2,3,inf}, system capacity 1..6
         "after every event populations are within capacity.  Non-trivial: >= 1 rejection and >= 1 admission at population "
         "capacity-1; distinct by spec digest.")
 ASSUMPTIONS = ["the iff clause is asserted for fixed-server nodes; for scheduled nodes only the upper bound queue capacity + max servers (S1)"]
+TECHNIQUE = 'property-based testing: generated capacitated networks; admission decisions observed per created customer compared with capacity recomputed from the spec'
 WALL = {"quick": 150, "thorough": 540}
 
 
